@@ -8,6 +8,8 @@ mod fam_custom;
 mod fam_edit;
 mod optok;
 mod fam_lower;
+mod gen_helpers;
+mod fam_helpers;
 
 use ctx::Ctx;
 
@@ -45,6 +47,7 @@ fn main() {
         "custom" => fam_custom::run(&mut ctx),
         "edit" => fam_edit::run(&mut ctx),
         "lower" => fam_lower::run(&mut ctx),
+        "helpers" => fam_helpers::run(&mut ctx),
         x => {
             eprintln!("unknown family {x}");
             std::process::exit(2);
